@@ -539,6 +539,71 @@ def ias15():
     return {n: table1(src, n, k) for n, k in [("h", 8), ("rr", 28), ("c", 21), ("d", 21), ("w", 8)]}
 
 
+# ----------------------------------------------------------------------------- lazy implementer's kicks (force at displaced positions)
+def lazy():
+    """WHFast LAZY kernel:  q' = q + (dt*dt/D1) a(q);  kick dt with a(q');  reset q.
+       SABA CL corrector:   q' = q + (dt*dt/D2) a(q);  v += cc*dt*K2 (a(q') - a(q));  reset q.   Returns (1/D1, 1, 1/D2, K2)."""
+    wh = re.sub(r"\s+", "", strip_comments(read("integrator_whfast.c")))
+    i = wh.find("caseREB_WHFAST_KERNEL_LAZY:{", wh.find("voidreb_integrator_whfast_part2"))
+    if i < 0:
+        die("lazy: LAZY kernel arm not found")
+    arm = wh[i:wh.find("break;", i)]
+    m = re.search(r"memcpy\(p_temp,p_j,r->N\*sizeof\(structreb_particle\)\);for\(unsignedinti=1;i<N;i\+\+\)\{constdoubleprefac1=dt\*dt/(\d+)\.;"
+                  r"p_j\[i\]\.x\+=prefac1\*p_temp\[i\]\.ax;p_j\[i\]\.y\+=prefac1\*p_temp\[i\]\.ay;p_j\[i\]\.z\+=prefac1\*p_temp\[i\]\.az;\}"
+                  r"reb_particles_transform_jacobi_to_inertial_pos\(particles,p_j,particles,N,N_active\);reb_simulation_update_acceleration\(r\);"
+                  r"reb_whfast_interaction_step\(r,dt\);for\(unsignedinti=1;i<N;i\+\+\)\{p_j\[i\]\.x=p_temp\[i\]\.x;p_j\[i\]\.y=p_temp\[i\]\.y;p_j\[i\]\.z=p_temp\[i\]\.z;\}", arm)
+    if not m:
+        die("lazy: WHFast LAZY kernel arm changed")
+    d1 = int(m.group(1))
+    sa = re.sub(r"\s+", "", strip_comments(read("integrator_saba.c")))
+    m = re.search(r"case2:\{.*?constdoubleprefac1=r->dt\*r->dt/(\d+)\.;for\(unsignedinti=1;i<N;i\+\+\)\{p_j\[i\]\.x\+=prefac1\*p_temp\[i\]\.ax;p_j\[i\]\.y\+=prefac1\*p_temp\[i\]\.ay;"
+                  r"p_j\[i\]\.z\+=prefac1\*p_temp\[i\]\.az;\}reb_particles_transform_jacobi_to_inertial_pos\(particles,p_j,particles,N,N(?:_active)?\);reb_simulation_update_acceleration\(r\);"
+                  r"reb_particles_transform_inertial_to_jacobi_acc\(particles,p_j,particles,N,N(?:_active)?\);constdoubleprefact=cc\*r->dt\*(\d+)\.;for\(unsignedinti=1;i<N;i\+\+\)\{"
+                  r"p_j\[i\]\.vx\+=prefact\*\(p_j\[i\]\.ax-p_temp\[i\]\.ax\);p_j\[i\]\.vy\+=prefact\*\(p_j\[i\]\.ay-p_temp\[i\]\.ay\);p_j\[i\]\.vz\+=prefact\*\(p_j\[i\]\.az-p_temp\[i\]\.az\);"
+                  r"p_j\[i\]\.x=p_temp\[i\]\.x;p_j\[i\]\.y=p_temp\[i\]\.y;p_j\[i\]\.z=p_temp\[i\]\.z;\}\}break;", sa)
+    if not m:
+        die("lazy: SABA lazy corrector changed")
+    return F(1, d1), F(1), F(1, int(m.group(1))), F(int(m.group(2)))
+
+
+# ----------------------------------------------------------------------------- MERCURIUS / TRACE switching weights
+def switching():
+    """pair weights of the two sub-Hamiltonians as affine functions a0 + a1*L of the changeover value L (MERCURIUS) and as
+    0/1 functions of the close-encounter flag K (TRACE), read off the force loops of gravity.c (serial and OPENMP variants)."""
+    g = re.sub(r"\s+", "", strip_comments(read("gravity.c")))
+    i0 = g.find("caseREB_GRAVITY_MERCURIUS:"); i1 = g.find("caseREB_GRAVITY_TRACE:")
+    if i0 < 0 or i1 < i0:
+        die("switching: MERCURIUS/TRACE gravity branches not found")
+    merc = g[i0:i1]
+    k1 = merc.find("case1:")
+    if k1 < 0 or not merc.startswith("caseREB_GRAVITY_MERCURIUS:{double(*_L)(conststructreb_simulation*constr,doubled,doubledcrit)=r->ri_mercurius.L;switch(r->ri_mercurius.mode){case0:"):
+        die("switching: MERCURIUS mode switch changed")
+    m0, m1 = merc[:k1], merc[k1:]
+    def weights(txt, what):
+        # every pair prefactor that involves the changeover value L
+        forms = set(re.findall(r"prefact=(-?G\*(?:particles\[m?j\]\.m\*)?(?:L|\(1\.-L\)))/\(_r\*_r\*_r\)", txt))
+        allL = len(re.findall(r"constdoubleL=_L\(r,_r,dcritmax\);", txt))
+        used = len(re.findall(r"prefact=-?G\*(?:particles\[m?j\]\.m\*)?(?:L|\(1\.-L\))/\(_r\*_r\*_r\)", txt))
+        if allL == 0 or allL != used:
+            die("switching: %s: %d changeover evaluations but %d weighted prefactors" % (what, allL, used))
+        kinds = set("1-L" if "(1.-L)" in f else "L" for f in forms)
+        if len(kinds) != 1:
+            die("switching: %s mixes weights %s" % (what, kinds))
+        return (0, 1) if kinds == {"L"} else (1, -1)
+    wk = weights(m0, "MERCURIUS mode 0"); we = weights(m1, "MERCURIUS mode 1")
+    tr = g[i1:]
+    a = tr.find("caseREB_TRACE_MODE_INTERACTION:"); b = tr.find("caseREB_TRACE_MODE_KEPLER:"); c = tr.find("caseREB_TRACE_MODE_NONE:")
+    if not (0 <= a < b < c):
+        die("switching: TRACE modes not found")
+    ti, tk = tr[a:b], tr[b:c]
+    ni = len(re.findall(r"if\(r->ri_trace\.current_Ks\[j\*N\+i\]\)continue;", ti)); nik = len(re.findall(r"current_Ks", ti))
+    nk = len(re.findall(r"if\(!r->ri_trace\.current_Ks\[mj\*N\+mi\]\)continue;", tk)); nkk = len(re.findall(r"current_Ks", tk))
+    if ni == 0 or ni != nik or nk == 0 or nk != nkk:
+        die("switching: TRACE pair selection changed (%d/%d, %d/%d)" % (ni, nik, nk, nkk))
+    # TRACE: interaction keeps the pairs with K = 0 (weight 1 - K), the Kepler/BS part those with K = 1 (weight K)
+    return wk, we, (1, -1), (0, 1)
+
+
 # ----------------------------------------------------------------------------- BS sequence / extrapolation (text checked)
 def bs():
     src = strip_comments(read("integrator_bs.c"))
@@ -565,6 +630,14 @@ def bs():
         die("bs: extrapolate() changed")
     if "doubleCD=odes[s]->y1[i];odes[s]->C[i]=CD;odes[s]->D[k][i]=CD;" not in flat:
         die("bs: C/D initialisation changed")
+    global BS_CONSTS
+    BS_CONSTS = []
+    for nme in ("stepControl1", "stepControl2", "stepControl3", "stepControl4", "orderControl1", "orderControl2", "stabilityReduction"):
+        v = scalar(src, nme)
+        BS_CONSTS.append((nme, v.numerator, v.denominator))
+    if ("constdoubleexp=1.0/(2*k+1);doublefac=stepControl2/pow(error/stepControl1,exp);constdoublepower=pow(stepControl3,exp);"
+        "fac=MAX(power/stepControl4,MIN(1./power,fac));ri_bs->optimal_step[k]=fabs(dt*fac);") not in flat:
+        die("bs: optimal step formula changed")
     return seq
 
 
@@ -632,8 +705,20 @@ def main():
     w("\n(* ---- integrator_ias15.c: Gauss-Radau tables *)")
     for k, v in ias15().items():
         w("Definition ias15_%s : list Z := %s." % (k, zlist([scaled(x, "ias15_" + k) for x in v])))
+    wk, we, ti, tk = switching()
+    w("\n(* ---- gravity.c: pair weights a0 + a1*x of the two sub-Hamiltonians; MERCURIUS: x = changeover value L(r) (mode 0 = kick, mode 1 = encounter),\n   TRACE: x = close-encounter flag K in {0,1} (interaction step, Kepler/BS step) *)")
+    w("Definition mercurius_w_kick : Z * Z := (%d, %d).\nDefinition mercurius_w_encounter : Z * Z := (%d, %d).\nDefinition trace_w_interaction : Z * Z := (%d, %d).\nDefinition trace_w_kepler : Z * Z := (%d, %d)." % (wk + we + ti + tk))
+    l1, l2, l3, l4 = lazy()
+    w("\n(* ---- lazy implementer's kicks: WHFast LAZY kernel  q' = q + lazy_wh_disp dt^2 a(q), kick lazy_wh_kick dt with a(q');\n   SABA CL corrector  q' = q + lazy_saba_disp dt^2 a(q),  v += cc dt lazy_saba_factor (a(q') - a(q)) *)")
+    w("Definition lazy_wh_disp : Z := %s.\nDefinition lazy_wh_kick : Z := %s.\nDefinition lazy_saba_disp : Z := %s.\nDefinition lazy_saba_factor : Z := %s."
+      % (zs(scaled(l1)), zs(scaled(l2)), zs(scaled(l3)), zs(scaled(l4))))
     w("\n(* ---- integrator_bs.c: step-number sequence; coeff[j] = (1/sequence[j])^2 and the C/D recursion of extrapolate() are checked textually *)")
     w("Definition bs_sequence : list Z := %s." % zlist(bs()))
+    w("(* %s as reduced fractions *)" % ", ".join(n for n, _, _ in BS_CONSTS))
+    w("Definition bs_constants : list (Z * Z) := [%s]." % "; ".join("(%d, %d)" % (p_, q_) for _, p_, q_ in BS_CONSTS))
+    isrc = strip_comments(read("integrator_ias15.c"))
+    sf = scalar(isrc, "safety_factor")
+    w("Definition ias15_safety_factor : Z * Z := (%d, %d)." % (sf.numerator, sf.denominator))
     os.makedirs(os.path.dirname(OUT), exist_ok=True)
     tmp = OUT + ".tmp%d" % os.getpid()
     with open(tmp, "w") as f:
